@@ -4,12 +4,12 @@
    the extracted inductive types.  No Extract Constant, no directive of our own. *)
 From Coq Require Import Extraction ExtrOcamlBasic ExtrOcamlString.
 From Breadlog Require Import Model.Peg Model.Text Model.Regex Model.Glue Model.Tables Model.Utf8 Model.Driver Model.Finder Model.Lock.
-From Breadlog Require Import Gen.Consts.
+From Breadlog Require Import Gen.Consts Gen.Regexes.
 Extraction Language OCaml.
 Extraction "model.ml"
   Tables.parse_file Tables.find Tables.the_params
   Glue.extract_reference Glue.directive_check Glue.usable Glue.insertable
-  Text.line_col Text.dec Text.parse_u32 Regex.captures
+  Text.line_col Text.dec Text.parse_u32 Regex.captures Regex.get_cap Regexes.re_documented
   Driver.run_edit Driver.run_check Driver.apply_effs Driver.crash_world Consts.c_START_REFERENCE_ID
   Utf8.utf8_decode Utf8.utf8_encode Finder.find_files Finder.effective_source_dir Finder.lock_path Finder.resolve
   Lock.lock_read Lock.lock_text.
